@@ -1,4 +1,5 @@
 import ComposeVerif.Props.C11Keys
+import ComposeVerif.Gen.C11Facts
 /-!
 # C09 — an entity spelled twice: the reload of the rendering collapses nothing more  (round 6)
 
@@ -15,6 +16,15 @@ spelling (`key (f x) = key x`, C11) — and fails as soon as the key of the long
 -/
 namespace CV.C11
 open CV CV.Val
+
+/-! ## 0. source tie (C11 pins all indexers in `indexers_are_source`; the one this module's headline is about is pinned here too) -/
+
+/-- `portIndexer` is the function `portKey` mirrors: `host_ip` defaults to 0.0.0.0 and `protocol` to tcp inside the key -/
+theorem port_indexer_is_source :
+    CV.Gen.c11_body_portIndexer =
+      "{ switch value := y.(type) { case int: return strconv.Itoa(value), nil case map[string]any: target, ok := value[\"target\"] if !ok { return \"\", fmt.Errorf(\"service ports %s is missing a target port\", p) } published, ok := value[\"published\"] if !ok { if pub, ok := value[\"published\"]; ok { published = fmt.Sprintf(\"%d\", pub) } } host, ok := value[\"host_ip\"] if !ok { host = \"0.0.0.0\" } protocol, ok := value[\"protocol\"] if !ok { protocol = \"tcp\" } return fmt.Sprintf(\"%s:%v:%v/%s\", host, published, target, protocol), nil case string: return value, nil } return \"\", nil }" := rfl
+
+/-! ## 1. the fixed point -/
 
 /-- `m[k] = x` for a key the map does not hold appends -/
 theorem insert_fresh (k : String) (x : Val) : ∀ (acc : KVs), (∀ kv ∈ acc, kv.1 ≠ k) → Val.insert k x acc = acc ++ [(k, x)]
